@@ -274,7 +274,7 @@ Proof. vm_compute. repeat split; reflexivity. Qed.
    CRLF line ends, any dedupe setting: records (EMPTY ones included) with unique non-empty keys, keys and values of ANY bytes --
    separators, quotes, LF, lone CR, empty lines inside a cell, leading/trailing spaces, invalid UTF-8 -- except the sequence
    CR LF inside a cell (refuted below) and a first key starting with byte 0xEF (BOM).  The reader model is the repaired
-   reader (/repo ec53d6cbc: a newline inside quotes with nothing before it on its line used to be dropped) *)
+   reader (/repo 567ffc2e0: a newline inside quotes with nothing before it on its line used to be dropped) *)
 Theorem C01_dkvpx_roundtrip :
   forall comma eq crlf dedupe recs, wf_dkvpx comma eq recs = true ->
   read_dkvpx comma eq dedupe (write_dkvpx [comma] [eq] crlf recs) = recs.
@@ -294,7 +294,7 @@ Proof. vm_compute. split; reflexivity. Qed.
 
 (* ---- custom record separators (--ors X written, --irs X read; single- and multi-character line readers) ---- *)
 (* the line reader inverts "every line followed by the separator": any non-empty separator (the last byte may occur earlier in
-   it, as in ";;" -- /repo 5d07e29dc), any number of lines, empty lines included; sufficient condition: no byte of the
+   it, as in ";;" -- /repo 3c48708b5), any number of lines, empty lines included; sufficient condition: no byte of the
    separator inside a line *)
 Theorem C01_custom_irs_lines :
   forall irs ls, irs <> [] -> forallb (freeof irs) ls = true -> lines_irs irs (unlines irs ls) = ls.
